@@ -102,6 +102,39 @@ static Op gen_op(FDP& f, int nreg, int unreg_client, bool allow_hello, std::vect
   return op;
 }
 
+// Read-only driver queries as the injected request (phase VP_QUERIES=1): under a failing allocation the caller gets the
+// modelled answer or NoMemory, nothing else changes, nothing leaks, and the retry is answered as modelled.
+static Op gen_query(FDP& f, int nreg) {
+  Op op; int c = (int)pick(f, nreg); op.c = c;
+  int kind = (int)pick(f, 11); int nk = (int)pick(f, 5); int t = (int)pick(f, nreg);
+  static const char* const kMember[] = {"GetNameOwner", "NameHasOwner", "ListQueuedOwners", "GetConnectionUnixUser", "GetConnectionCredentials", "GetConnectionUnixProcessID", "ListNames", "ListActivatableNames", "GetId", "Introspect", "GetAll"};
+  std::string member = kMember[kind];
+  bool takes_name = kind <= 5;
+  std::string fixed = nk == 0 ? kNames[0] : nk == 1 ? kNames[1] : nk == 2 ? BUS_NAME : nk == 3 ? "" : "com.vp.Nobody";
+  op.desc = "client" + std::to_string(c) + " " + member + (takes_name ? "(" + (nk == 3 ? "client" + std::to_string(t) : fixed) + ")" : "()");
+  op.make = [=](Hist& h) {
+    if (kind == 9) { Msg m = driver_call("Introspect", {}); m.set_str(F_INTERFACE, 's', "org.freedesktop.DBus.Introspectable"); if (nk & 1) m.set_str(F_PATH, 'o', "/"); return m; }
+    if (kind == 10) { Msg m = driver_call("GetAll", {Value::str('s', BUS_IFACE)}); m.set_str(F_INTERFACE, 's', "org.freedesktop.DBus.Properties"); return m; }
+    if (!takes_name) return driver_call(member, {});
+    return driver_call(member, {Value::str('s', nk == 3 ? h.uniq(t) : fixed)});
+  };
+  op.apply = [=](BusModel& m, const Msg& r, Out& o) {
+    std::string me = m.conns[c].unique;
+    auto any = [&]() { Exp e = exp_reply(me, r.serial, {}); e.any_body = true; m.emit_to(c, e, o); };
+    if (!takes_name) { any(); return; }
+    std::string name = r.body.empty() ? "" : r.body[0].s;
+    std::string own = name == BUS_NAME ? std::string(BUS_NAME) : m.owner_unique(name);
+    if (kind == 1) { m.emit_to(c, exp_reply(me, r.serial, {Value::basic('b', own.empty() ? 0 : 1)}), o); return; }
+    if (own.empty()) { m.emit_to(c, exp_error(me, r.serial, "org.freedesktop.DBus.Error.NameHasNoOwner"), o); return; }
+    if (kind == 0) m.emit_to(c, exp_reply(me, r.serial, {Value::str('s', own)}), o);
+    else if (kind == 2) { Value a = Value::array("s"); std::vector<std::string> wq = m.queued_owners(name); if (name == BUS_NAME) wq = {BUS_NAME}; for (auto& x : wq) a.kids.push_back(Value::str('s', x)); m.emit_to(c, exp_reply(me, r.serial, {a}), o); }
+    else if (kind == 3) m.emit_to(c, exp_reply(me, r.serial, {Value::basic('u', (uint64_t)getuid())}), o);
+    else if (kind == 5) m.emit_to(c, exp_reply(me, r.serial, {Value::basic('u', (uint64_t)getpid())}), o);
+    else any();
+  };
+  return op;
+}
+
 struct Plan { int nreg; std::vector<Op> prior; Op R; int gap; };
 
 // returns: 0 = countdown never fired (enumeration complete), 1 = fired and everything checked
@@ -236,7 +269,8 @@ extern "C" int LLVMFuzzerTestOneInput(const uint8_t* data, size_t size) {
   int nprior = (int)pick(f, 7);
   std::vector<std::pair<int, int>> added;
   for (int i = 0; i < nprior; i++) pl.prior.push_back(gen_op(f, pl.nreg, unreg, true, &added));
-  pl.R = gen_op(f, pl.nreg, unreg, true, &added);
+  static const bool queries = getenv("VP_QUERIES") != nullptr;
+  pl.R = queries ? gen_query(f, pl.nreg) : gen_op(f, pl.nreg, unreg, true, &added);
   pl.gap = (int)pick(f, 12);
   int fired = 0, applied = 0, nomem = 0; std::string key;
   static const bool trace = getenv("VP_TRACE") != nullptr;
